@@ -3,9 +3,11 @@ use h_common::main_with;
 mod send_driver;
 #[path = "../streams_driver.rs"]
 mod streams_driver;
+#[path = "../manager_driver.rs"]
+mod manager_driver;
 #[path = "../close_driver.rs"]
 mod close_driver;
 
 fn main() {
-    main_with(&[("cs", close_driver::cs), ("st", streams_driver::st), ("ss", send_driver::ss)]);
+    main_with(&[("cs", close_driver::cs), ("st", streams_driver::st), ("sm", manager_driver::sm), ("ss", send_driver::ss)]);
 }
